@@ -52,6 +52,8 @@ structure TyInfo where
   isStruct : Bool := false
   /-- `Underlying()` is the invalid basic type -/
   isInvalid : Bool := false
+  /-- `Underlying()` is a `*types.Slice` (then `elem` is its element type) -/
+  isSlice : Bool := false
   /-- `Underlying().String()` (error messages only) -/
   underStr : String := ""
   /-- fields of the underlying struct, declaration order -/
@@ -97,7 +99,8 @@ def isPtr (t : TyId) : Bool := env.kind t == .pointer
 /-- `util.DerefPtr` (one level) -/
 def derefPtr (t : TyId) : TyId := if env.isPtr t then (env.ty t).elem else t
 def isStructType (t : TyId) : Bool := (env.ty t).isStruct
-def isSliceType (t : TyId) : Bool := env.kind t == .slice
+/-- `util.IsSliceType`: the underlying type is a slice (a defined type `type Names []string` too) -/
+def isSliceType (t : TyId) : Bool := (env.ty t).isSlice || env.kind t == .slice
 def isBasicType (t : TyId) : Bool := env.kind t == .basic
 def isNamedType (t : TyId) : Bool := env.kind t == .named
 /-- `util.SliceElement` (callers test `isSliceType` first) -/
